@@ -93,6 +93,49 @@ func (r *run) conclude(ld *loaded, files []harnessFile, results []*interp.Harnes
 			inconclusive = append(inconclusive, "native replay failed: "+firstLines(err.Error(), 8))
 		}
 	}
+	// The real code is not always deterministic (Go randomises map iteration order; the engine iterates in insertion
+	// order): a case whose first native run disagrees with the symbolic path is re-run a few times, and it counts as
+	// reproduced / agreeing as soon as one native run shows the behaviour of the symbolic path.
+	if !r.noReplay && natives != nil {
+		for attempt := 0; attempt < 8; attempt++ {
+			var again []*replayCase
+			for _, c := range cases {
+				n := natives[c.ID]
+				if n == nil || !n.Ran || usesRand(c.Inputs) {
+					continue
+				}
+				if c.vio != nil {
+					if !(n.Failed || (n.Panicked && !n.ExpectPan)) && c.vio.Kind != "frame" {
+						again = append(again, c)
+					}
+				} else if compareSample(c.sample, n) != "" {
+					again = append(again, c)
+				}
+			}
+			if len(again) == 0 {
+				break
+			}
+			t0 := time.Now()
+			more, err := r.nativeReplay(ld, files, again)
+			replayWall += time.Since(t0)
+			if err != nil {
+				break
+			}
+			for _, c := range again {
+				m := more[c.ID]
+				if m == nil || !m.Ran {
+					continue
+				}
+				if c.vio != nil {
+					if m.Failed || (m.Panicked && !m.ExpectPan) {
+						natives[c.ID] = m
+					}
+				} else if compareSample(c.sample, m) == "" {
+					natives[c.ID] = m
+				}
+			}
+		}
+	}
 	for _, c := range cases {
 		n := natives[c.ID]
 		if c.vio != nil {
